@@ -320,7 +320,7 @@ def is_literal(token: tokens.Literal):
 
 def is_capitalized_literal(token: tokens.Literal):
     if is_literal(token):
-        return 'A' <= token.value[0] <= 'Z'
+        return bool(token.value) and 'A' <= token.value[0] <= 'Z'
 
     return False
 
